@@ -708,6 +708,25 @@ def persist_history(seed, tables, nops=40, ntok=2, dump_every=4, big=False):
             k = h.open(t, True); h.login(k, t, 'user'); h.refind(k, t)
             if rng.random() < 0.5: h.open(t, rng.random() < 0.5)
     sessions()
+    # token keys with a CKA_WRAP_TEMPLATE (boolean entries + an ALLOWED_MECHANISMS entry, which is stored as a byte string) and keys that do / do not satisfy it:
+    # the template must still be enforced after every restart, on every backend
+    wrapsets = []
+    for t in h.toks:
+        k = [s[0] for s in h.sessions if s[1] is t][0]
+        kek = h.op(f"create @{k} 0={ul(4)} 100={ul(0x1f)} 1=01 2=01 3={hx(h.new_label())} 11={'0f' * 16} 106=01 162=01 103=00 40000211={{104=01;162=01;40000600={ul(0x1082)}}}"); h.minted += 1
+        good = h.op(f"create @{k} 0={ul(4)} 100={ul(0x1f)} 1=01 2=01 3={hx(h.new_label())} 11={'1e' * 16} 104=01 162=01 103=00 40000600={ul(0x1082)}"); h.minted += 1
+        bad = h.op(f"create @{k} 0={ul(4)} 100={ul(0x1f)} 1=01 2=01 3={hx(h.new_label())} 11={'2d' * 16} 104=00 162=01 103=00 40000600={ul(0x1082)}"); h.minted += 1
+        labs = [f"obj{h.nlabel - 2}", f"obj{h.nlabel - 1}", f"obj{h.nlabel}"]
+        wrapsets.append([t, labs])
+    def try_wraps():
+        for t, labs in wrapsets:
+            ks = [s[0] for s in h.sessions if s[1] is t]
+            if not ks: continue
+            refs = []
+            for lab in labs:
+                h.op(f"findinit @{ks[0]} 3={hx(lab)}"); refs.append(h.op(f"find @{ks[0]} 1")); h.op(f"findfinal @{ks[0]}"); h.minted += 1
+            h.op(f"wrap @{ks[0]} 2109 @{refs[0]} @{refs[1]} 600"); h.op(f"wrap @{ks[0]} 2109 @{refs[0]} @{refs[2]} 600")
+    try_wraps()
     h.op("dumpdir")
     for n in range(nops):
         r = rng.random()
@@ -736,6 +755,7 @@ def persist_history(seed, tables, nops=40, ntok=2, dump_every=4, big=False):
             h.op("dumpdir")
             h.restart(rng.choice(["reinit", "exit", "clean"]))
             sessions()
+            try_wraps()
             h.op("dumpdir")
             for t2 in h.toks:
                 ks = [s[0] for s in h.sessions if s[1] is t2]
